@@ -370,6 +370,9 @@ def run(tier, seed):
     for text in ("Qq='\"' ; export Qa=$Qq ; vp_argv ok", "Qq=\"'\" ; export Qa=$Qq", "Qq='\"' ; Qb=$Qq vp_argv ok", "Qa=\"", "export Qa='", "vp_argv x ; Qa=\""):
         for mode in ("c", "script"):
             cases.append({"kind": "line", "line": text, "mode": mode, "binary": "debug"})
+    # commands that read their standard input, given on a standard input that is no terminal
+    for text in ("read Qv", "``read Qv <<< a", "vp_argv x ; read Qv Qw", "read Qv ; vp_argv y"):
+        cases.append({"kind": "line", "line": text, "mode": "stdin", "binary": "debug"})
     # lines with a range far too large to build, as a word of its own
     for text in ("vp_argv {1..2147483647}", "vp_argv x{-2147483648..2147483647}y z", "{2000000000..-2000000000..3}"):
         for mode in ("c", "script"):
